@@ -481,3 +481,5 @@ func (a *Actor) Fund(mint string, amount uint64) []*HProof {
 	}
 	return ps
 }
+
+func jsonMarshal(v any) ([]byte, error) { return json.Marshal(v) }
